@@ -153,6 +153,27 @@ Theorem source_store_pinned :
 Proof. exact Layout.source_store_pinned_lemma. Qed.
 Print Assumptions source_store_pinned.
 
+(** (9) a refused call changes nothing: in the specification, and therefore in what any reachable model state stands for *)
+Theorem spec_refused_changes_nothing : forall s o,
+  snd (VGraphSpec.step s o) = RFail -> fst (VGraphSpec.step s o) = s.
+Proof. exact spec_refused_changes_nothing_lemma. Qed.
+Print Assumptions spec_refused_changes_nothing.
+
+Theorem model_refused_changes_nothing : forall m o, Inv m -> snd (VGraphSpec.step (abs_state m) o) = RFail ->
+  abs_state (fst (mstep m o)) = abs_state m /\ snd (mstep m o) = RFail /\ Inv (fst (mstep m o)).
+Proof. exact model_refused_changes_nothing_lemma. Qed.
+Print Assumptions model_refused_changes_nothing.
+
+(** refused calls change nothing, and the tree keeps its threads: the statements behind that *)
+Theorem source_errors_tree_pinned :
+  vsetname_order = "name_len=strlen(vgname);if(name_len>UINT16_MAX)HGOTO_ERROR(DFE_EXCEEDMAX,FAIL);free(vg->vgname);vg->vgname=(char*)malloc(name_len+1);if(vg->vgname==NULL)HGOTO_ERROR(DFE_NOSPACE,FAIL);HIstrncpy(vg->vgname,vgname,(int)name_len+1);vg->marked=TRUE;"%string /\
+  vsetclass_order = "classname_len=strlen(vgclass);if(classname_len>UINT16_MAX)HGOTO_ERROR(DFE_EXCEEDMAX,FAIL);free(vg->vgclass);vg->vgclass=(char*)malloc(classname_len+1);if(vg->vgclass==NULL)HGOTO_ERROR(DFE_NOSPACE,FAIL);HIstrncpy(vg->vgclass,vgclass,(int)classname_len+1);vg->marked=TRUE;"%string /\
+  tbbtrem_thread_same = "n=leaf->Link[side];par->Link[side]=n;n->Parent=par;if(HasChild(n,Other(side)))while(HasChild(n,Other(side)))n=n->Link[Other(side)];n->Link[Other(side)]=par;"%string /\
+  tbbtrem_thread_zigzag = "n=leaf->Link[Other(side)];par->Link[side]=n;n->Parent=par;if(HasChild(n,side))while(HasChild(n,side))n=n->Link[side];n->Link[side]=next;"%string /\
+  vdelete_order = "if((v=tbbtrem((TBBT_NODE**)vf->vgtree,(TBBT_NODE*)t,NULL))!=NULL)vdestroynode((void*)v);if(Hdeldd(f,DFTAG_VG,(uint16)vgid)==FAIL)"%string.
+Proof. exact Layout.source_errors_tree_pinned_lemma. Qed.
+Print Assumptions source_errors_tree_pinned.
+
 (** (6) tie to the source text: this obligation breaks when a statement of vpackvg / vunpackvg / vinsertpair /
     Vdeletetagref, a constant or the internal class-name table changes in vgp.c *)
 Theorem source_layout_pinned :
@@ -328,3 +349,10 @@ Proof. vm_compute. repeat split. Qed.
 Example ex_hist_in_domain : in_domain (s_trace init ex_hist) /\
   map (fun e => (fst e, marked (snd e))) (m_vg (m_final minit ex_hist)) = [(2, false); (5, true)].
 Proof. vm_compute. split; [exact I|reflexivity]. Qed.
+
+(** a refused rename (65536 bytes) on a named vgroup: FAIL, and the name is still there *)
+Example ex_refused_rename :
+  let ops := [OOpen; OVgNew 0 2; OSetName 0 [110; 49]; OSetName 0 (repeat 97 (Z.to_nat 65536)); OGetName 0; OFind [110; 49]] in
+  s_trace init ops = [ROk [] None; ROk [2] None; ROk [] None; RFail; ROk [] (Some [110; 49]); ROk [2] None] /\
+  m_trace minit ops = s_trace init ops.
+Proof. vm_compute. split; reflexivity. Qed.
